@@ -494,7 +494,31 @@ func (m *multi) checkObservation(o *obs) {
 	for eid, ds := range o.dets {
 		for _, d := range ds {
 			if other, dup := seen[d]; dup && other != eid {
-				m.viol("C04", "detector-exclusive", "detector-in-two-environments", "detector %s is part of two listed environments (%s in %s, %s in %s)", d, eid, o.envs[eid], other, o.envs[other])
+				// how did they get there? two creations racing (listed known finding: check and
+				// registration are not atomic), or one created while the other's teardown was
+				// already under way
+				sig := "detector-in-two-environments"
+				m.mu.Lock()
+				rec := map[string]*envRec{}
+				newInv := map[int]int{}
+				for _, e := range m.envs {
+					if e.ID != "" {
+						rec[e.ID] = e
+					}
+				}
+				for _, r := range m.sc.Requests {
+					if strings.HasPrefix(r.Op, "NEW") {
+						newInv[r.Env] = r.invoke
+					}
+				}
+				for _, pair := range [][2]string{{eid, other}, {other, eid}} {
+					a, b := rec[pair[0]], rec[pair[1]]
+					if a != nil && b != nil && a.destroyReqSeq != 0 && a.destroyReqSeq < newInv[b.Idx] {
+						sig = "detector-in-two-environments:created-during-teardown-of-the-holder"
+					}
+				}
+				m.mu.Unlock()
+				m.viol("C04", "detector-exclusive", sig, "detector %s is part of two listed environments (%s in %s, %s in %s)", d, eid, o.envs[eid], other, o.envs[other])
 			}
 			seen[d] = eid
 		}
